@@ -1419,6 +1419,16 @@ int main(int argc, char **argv)
         stat("classes_found_toXml_definitions", found);
         std::set<std::string> defs; for (auto &c : table) defs.insert(c.cxx.empty() ? c.name : c.cxx);
         stat("classes_modelled", (long long)defs.size());
+        // how many schemas are covered by the generic theorems (well-formed), how many model a recorded defect as it is
+        std::vector<std::string> wops; for (auto &c : table) wops.push_back("codec-wf " + c.name);
+        auto wres = askDriver(wops);
+        std::set<std::string> wfDefs, codeDefs;
+        for (size_t k = 0; k < table.size(); k++) {
+            const std::string def = table[k].cxx.empty() ? table[k].name : table[k].cxx;
+            if (wres[k] == "wf") { stat("schemas_wellformed_proved"); wfDefs.insert(def); } else { stat("schemas_modelling_a_recorded_defect"); codeDefs.insert(def); }
+        }
+        for (auto &d2 : codeDefs) wfDefs.erase(d2);
+        stat("classes_fully_proved", (long long)wfDefs.size());
     }
     stat("mutation_kinds", M_KINDS);
     finish();
